@@ -165,6 +165,8 @@ fn keygen_events<V: Fv>(proc_id: u64, seed: u64, bases: usize, flips: usize, con
     // continuing the seeded stream is only seen on such seeds
     let ncorpus = if thorough_sweep { 8 } else if V::N == 512 { 2 } else { 1 };
     base_seeds.extend(crate::corpus::fg_window(V::N).iter().take(ncorpus).map(|(i, _)| crate::corpus::corpus_seed(*i)));
+    // ... and seeds whose key generation goes through more than a hundred candidates
+    base_seeds.extend(crate::corpus::long_stream(V::N).iter().take(if thorough_sweep { 3 } else { 1 }).map(|(i, _)| crate::corpus::corpus_seed(*i)));
     for (bi, base) in base_seeds.iter().enumerate() {
         evs.push(keygen_event::<V>(proc_id, 0, evs.len(), *base, "base"));
         evs.push(keygen_event::<V>(proc_id, 0, evs.len(), *base, "repeat-same-thread"));
